@@ -1,5 +1,5 @@
 (* Property C14: numbers survive every text <-> binary conversion. Only the property theorems. *)
-From C14 Require Import Model ProofsInt ProofsEmit ProofsStr ProofsFloat.
+From C14 Require Import ProofsBn Model ProofsInt ProofsEmit ProofsStr ProofsFloat.
 Local Open Scope Z_scope.
 
 (* the literal reader computes the mathematical value of the digit string modulo 2^BN_BITS ... *)
@@ -14,12 +14,9 @@ Theorem C14_reader_exact_partial : forall base ds,
 Proof. exact read_int_exact. Qed.
 Print Assumptions C14_reader_exact_partial.
 
-(* decimal literals (after 96cb9da): the reader produces an integer only when it is the exact value of the
-   digits; values the big numbers cannot hold are handed to the float reader (like Lua), never wrapped *)
-Theorem C14_reader_dec_exact : forall ds v, nl_read_dec ds = Some v -> v = digits_value 10 0 ds.
-Proof. exact read_dec_exact. Qed.
-Print Assumptions C14_reader_dec_exact.
-
+(* decimal literals (after 96cb9da): values the big numbers cannot hold are handed to the float reader (like Lua),
+   never wrapped.  (The former C14_reader_dec_exact restated the guard of the model and is gone: the content is
+   C14_reader_is_bn_from below, against C17's limb-level model of bn.lua.) *)
 Theorem C14_reader_dec_complete : forall ds,
   - 2 ^ (BN_BITS - 1) <= digits_value 10 0 ds < 2 ^ (BN_BITS - 1) -> nl_read_dec ds = Some (digits_value 10 0 ds).
 Proof. exact read_dec_complete. Qed.
@@ -36,13 +33,14 @@ Proof. exact read_int_eq_lua_mod64. Qed.
 Print Assumptions C14_reader_eq_lua_mod64.
 
 (* ---- the C literal printer against ISO C's typing of integer constants ---- *)
-(* full strength (after 59c538f): every scraped integral type up to 64 bits, every value in [-2^159, 2^159),
+(* _partial: the 128-bit types (int128 / uint128, for which C has no constant syntax) are excluded by the hypothesis
+   it_bits T <= 64.  After 59c538f: every scraped integral type up to 64 bits, every value in [-2^159, 2^159),
    every base: the emitted token has a C type of T's signedness and denotes wrap_T(v) itself *)
-Theorem C14_literal_roundtrip : forall T v base, In T all_int_types -> it_bits T <= 64 ->
+Theorem C14_literal_roundtrip_partial : forall T v base, In T all_int_types -> it_bits T <= 64 ->
   - 2 ^ (BN_BITS - 1) <= v < 2 ^ (BN_BITS - 1) ->
   exists w val, c_eval (nl_emit T v base) = Some ((w, it_signed T), val) /\ val = wrap_T T v /\ c_convert T val = wrap_T T v.
 Proof. exact literal_roundtrip. Qed.
-Print Assumptions C14_literal_roundtrip.
+Print Assumptions C14_literal_roundtrip_partial.
 
 (* ---- run time ---- *)
 Theorem C14_int2str_str2int_roundtrip : forall x, in_i64 x ->
@@ -50,22 +48,25 @@ Theorem C14_int2str_str2int_roundtrip : forall x, in_i64 x ->
 Proof. exact int2str_str2int_roundtrip. Qed.
 Print Assumptions C14_int2str_str2int_roundtrip.
 
-(* ---- floats (partial): decision logic of bn.todecsci; the 17-digit fact is a premise ---- *)
+(* ---- floats (partial): decision logic of bn.todecsci; the 17-digit fact is a premise, stated up to the
+   comparison the code uses (Lua's ==, which identifies the two zeros and never holds on a NaN) and for the values
+   [dom] it is assumed of; ProofsFloat.ToyInstance shows the premises satisfiable on a type with -0 and NaN.  The
+   exponent clean-up and the forced ".0" applied afterwards are not part of this statement. ---- *)
 Theorem C14_todecsci_reads_back_partial :
-  forall (F text : Type) (fmt : Z -> F -> text) (rd : text -> F) (feq : F -> F -> bool),
-    (forall a b, feq a b = true <-> a = b) ->
-    (forall v, rd (fmt 17 v) = v) ->
-    forall v, rd (todecsci64 F text fmt rd feq v) = v.
+  forall (F text : Type) (fmt : Z -> F -> text) (rd : text -> F) (eqv : F -> F -> Prop) (feq : F -> F -> bool),
+    (forall a b, feq a b = true <-> eqv a b) ->
+    forall dom : F -> Prop, (forall v, dom v -> eqv (rd (fmt 17 v)) v) ->
+    forall v, dom v -> eqv (rd (todecsci64 F text fmt rd feq v)) v.
 Proof. exact todecsci_reads_back. Qed.
 Print Assumptions C14_todecsci_reads_back_partial.
 
 Theorem C14_todecsci_first_partial :
-  forall (F text : Type) (fmt : Z -> F -> text) (rd : text -> F) (feq : F -> F -> bool),
-    (forall a b, feq a b = true <-> a = b) ->
+  forall (F text : Type) (fmt : Z -> F -> text) (rd : text -> F) (eqv : F -> F -> Prop) (feq : F -> F -> bool),
+    (forall a b, feq a b = true <-> eqv a b) ->
     forall v,
-    (rd (fmt 15 v) = v -> todecsci64 F text fmt rd feq v = fmt 15 v) /\
-    (rd (fmt 15 v) <> v -> rd (fmt 16 v) = v -> todecsci64 F text fmt rd feq v = fmt 16 v) /\
-    (rd (fmt 15 v) <> v -> rd (fmt 16 v) <> v -> todecsci64 F text fmt rd feq v = fmt 17 v).
+    (eqv (rd (fmt 15 v)) v -> todecsci64 F text fmt rd feq v = fmt 15 v) /\
+    (~ eqv (rd (fmt 15 v)) v -> eqv (rd (fmt 16 v)) v -> todecsci64 F text fmt rd feq v = fmt 16 v) /\
+    (~ eqv (rd (fmt 15 v)) v -> ~ eqv (rd (fmt 16 v)) v -> todecsci64 F text fmt rd feq v = fmt 17 v).
 Proof. exact todecsci_first. Qed.
 Print Assumptions C14_todecsci_first_partial.
 
@@ -78,3 +79,35 @@ Print Assumptions C14_print_dot0_eq_lua.
 Theorem C14_force_fract_not_int_like : forall s, int_like (nl_force_fract s) = false.
 Proof. exact force_fract_not_int_like. Qed.
 Print Assumptions C14_force_fract_not_int_like.
+
+(* ---- the reader against the verified model of bn.lua (sub-project C17, imported) ----
+   C14's reader is a three-line recurrence in wrapped big-number arithmetic; bn.lua's frombase works in chunks on
+   32-bit limbs.  On every string of valid digit characters the limb-level model of C17 (proved exact there:
+   C17_literal_exact) reads the number C14's reader reads; a decimal literal is an integer for one exactly when it
+   is for the other, and is handed to the float reader otherwise. *)
+Theorem C14_reader_is_bn_from :
+  (forall cs, Forall (C17.ProofsText.char_ok 2) cs ->
+     exists x, C17.Model3.bn_from_bin false cs = C17.Model2.Ok x /\ C17.Model.wf x /\
+               C17.Model.sval x = nl_read_int 2 (map C17.ProofsText.cval cs)) /\
+  (forall cs, cs <> [] -> Forall (C17.ProofsText.char_ok 16) cs ->
+     exists x, C17.Model3.bn_from_hex false cs = C17.Model2.Ok x /\ C17.Model.wf x /\
+               C17.Model.sval x = nl_read_int 16 (map C17.ProofsText.cval cs)) /\
+  (forall cs, cs <> [] -> Forall (C17.ProofsText.char_ok 10) cs ->
+     match nl_read_dec (map C17.ProofsText.cval cs) with
+     | Some v => exists x, C17.Model3.bn_from_dec cs = C17.Model2.Ok (C17.Model3.LInt x) /\ C17.Model.wf x /\ C17.Model.sval x = v
+     | None => C17.Model3.bn_from_dec cs = C17.Model2.Ok C17.Model3.LFloat
+     end).
+Proof. exact reader_is_bn_from. Qed.
+Print Assumptions C14_reader_is_bn_from.
+
+(* ---- which strings strconv.str2int accepts ----
+   obligation [str2int_sound]: whatever str2int accepts contains at least one digit (Lua's tonumber / math.tointeger
+   return nil otherwise).  REFUTED as the code is: tointeger('-'), '+', '0x', '0b', ' - ' are 0 *)
+Theorem C14_str2int_sound_refuted : ~ str2int_sound.
+Proof. exact str2int_sound_refuted. Qed.
+Print Assumptions C14_str2int_sound_refuted.
+
+(* what holds today: a result other than 0 comes from a string with a digit *)
+Theorem C14_str2int_sound_partial : forall base s v, nl_str2int base s = Some v -> v <> 0 -> has_digit s.
+Proof. exact str2int_sound_partial. Qed.
+Print Assumptions C14_str2int_sound_partial.
